@@ -250,6 +250,22 @@ def check_families(ctx, r, rid="R5"):
         bad["generate_routes_for_each_locale"] = "the segment table is %s; expected every locale mapped to the route's segments in that locale" % absint.fmt(got)[:300]
     elif state["cur"] != C("None"):
         bad["generate_routes_for_each_locale#reset"] = "the route locale is left at %s afterwards: routes matched or generated later would use it" % absint.fmt(state["cur"])
+    # a locale that uses the default locale's words, and an application without localized segments: every locale still gets
+    # its table (a switch between two non-default locales rewrites through both tables)
+    for label, table in (("one locale shares the default's words", {"en": ["", "about"], "fr": ["", "a-propos"], "de": ["", "about"]}),
+                         ("no localized segment", {"en": ["", "docs", ":id"], "fr": ["", "docs", ":id"], "de": ["", "docs", ":id"]})):
+        ev = mk()
+        ev.path_builtins["MatchNestedRoutes::generate_routes"] = lambda a, table=table: L(CF("GeneratedRouteData", segments=L(*[c14._seg_value(x) for x in table[current()]])))
+        state["cur"] = C("None")
+        got = ev.run_fn(fams[0], [this])
+        if isinstance(got, str):
+            raise Unknown("generate_routes_for_each_locale: " + got)
+        n += 1
+        want = {l: L(L(*[c14._seg_value(x) for x in table[l]])) for l in c14.LOCALES}
+        have = {x[1][0][1]: x[1][1] for x in got[1]} if got[0] == "list" else None
+        if have != want:
+            bad.setdefault("generate_routes_for_each_locale", "%s: the segment table holds %s; expected one entry per locale (%s) - without its table a locale's URLs are not rewritten when switching between two non-default locales"
+                           % (label, sorted(have) if have is not None else absint.fmt(got)[:200], ", ".join(c14.LOCALES)))
     # ---- match_nested
     def static_test(rv, a):
         seg = rv[2][0][1]
